@@ -83,7 +83,8 @@ impl GraphEngine {
         let wal_path = wal_path.as_ref().to_path_buf();
 
         let mut pager = Pager::open(&ndb_path)?;
-        let wal = Wal::open(&wal_path)?;
+        let mut wal = Wal::open(&wal_path)?;
+        wal.discard_malformed_tail()?;
 
         let mut idmap = IdMap::load(&mut pager)?;
         let mut index_catalog = IndexCatalog::open_or_create(&mut pager)?;
